@@ -149,6 +149,19 @@ def Param.accepts (p : Param V) (x : V) : Bool :=
 
 end ops
 
+/-- value of one entry of a `make_params_fixed` request dictionary -/
+inductive FixVal (V : Type)
+  | bad                 -- not castable to float (`'abc'`): `float_cast` raises `TypeError`
+  | cur                 -- Python `None`: fix at the current value
+  | val (v : V)
+  deriving DecidableEq, Repr
+
+/-- what the fix / float loop does to one parameter (`f` = the per-parameter action) -/
+def applyF {V : Type} (f : Param V → Except Err (Option (Param V))) (p : Param V) : Param V :=
+  match f p with
+  | .ok (some p') => p'
+  | _ => p
+
 /-! ### ParameterSet -/
 
 structure PSet (V : Type) where
@@ -242,11 +255,17 @@ def editAllUnvalidated (f : Param V → Except Err (Option (Param V))) (s : PSet
 section ops
 variable [LT V] [DecidableLT V]
 
-/-- per-parameter action of `make_params_fixed(req)`; `req[name] = none` is Python `None`. -/
-def fixF (req : List (String × Option V)) (p : Param V) : Except Err (Option (Param V)) :=
+/-- per-parameter action of `make_params_fixed(req)` including the checks of the validation pass
+(already fixed → `ValueError`, value not castable to float → `TypeError`). -/
+def fixF (req : List (String × FixVal V)) (p : Param V) : Except Err (Option (Param V)) :=
   match dget req p.name with
   | none => .ok none
-  | some ini => if p.isfixed then .error .valueError else .ok (some (p.makeFixed ini))
+  | some x =>
+    if p.isfixed then .error .valueError else
+    match x with
+    | .bad => .error .typeError
+    | .cur => .ok (some (p.makeFixed none))
+    | .val v => .ok (some (p.makeFixed (some v)))
 
 /-- entry of the `make_params_floating` request dictionary after `_parse_float_param_dict_entry` -/
 abbrev FloatEntry (V : Type) := Option V × Option V × Option V
@@ -260,7 +279,7 @@ def floatF (req : List (String × FloatEntry V)) (p : Param V) : Except Err (Opt
     | .ok p' => .ok (some p')
     | .error e => .error e
 
-def makeParamsFixed (s : PSet V) (req : List (String × Option V)) : PSet V × Except Err Unit :=
+def makeParamsFixed (s : PSet V) (req : List (String × FixVal V)) : PSet V × Except Err Unit :=
   editAll (fixF req) s
 
 def makeParamsFloating (s : PSet V) (req : List (String × FloatEntry V)) : PSet V × Except Err Unit :=
@@ -512,10 +531,13 @@ def mapParam (s : PMM V) (p : Param V) (models : Option (List Nat)) (al : AliasA
 
 /-- `get_src_model_idxs(sources)` (after the fix): `sel = none` ↔ all sources; otherwise the list of
 model positions of the requested source objects. -/
+def isSourceAt (s : PMM V) (i : Nat) : Bool :=
+  match s.models[i]? with
+  | some m => m.2
+  | none => false
+
 def srcModelIdxs (s : PMM V) (sel : Option (List Nat)) : List Nat :=
-  let all := (List.range s.nModels).filter (fun i => match s.models[i]? with
-    | some m => m.2
-    | none => false)
+  let all := (List.range s.nModels).filter s.isSourceAt
   match sel with
   | none => all
   | some l => all.filter (fun i => l.contains i)
@@ -611,7 +633,7 @@ structure PArgs (V : Type) where
 
 inductive Op (V : Type)
   | add (a : PArgs V) (front : Bool)
-  | fix (req : List (String × Option V))
+  | fix (req : List (String × FixVal V))
   | float (req : List (String × PSet.FloatEntry V))
   | setv (n : String) (v : V)
   | union (other : List (PArgs V)) (left : Bool)     -- `union(self, other)` / `union(other, self)`
@@ -672,5 +694,50 @@ def PMM.run (s : PMM V) : List (Op V) → PMM V
   | op :: ops => PMM.run (s.step op).1 ops
 
 end step
+
+/-! ### the specification machine: what the bare parameter list becomes under an edit -/
+
+namespace Spec
+variable {V : Type} [LT V] [DecidableLT V]
+
+/-- fix / float at specification level: the first parameter (in declaration order) whose request is
+invalid rejects the whole request; otherwise exactly the named parameters are replaced. -/
+def editAll (f : Param V → Except Err (Option (Param V))) (ps : List (Param V)) :
+    List (Param V) × Except Err Unit :=
+  match PSet.validate f ps with
+  | .error e => (ps, .error e)
+  | .ok _ => (ps.map (applyF f), .ok ())
+
+/-- `a ∪ b`: `a`, then the parameters of `b` whose name does not occur in `a` -/
+def unionList (a b : List (Param V)) : List (Param V) :=
+  a ++ b.filter (fun p => !(a.map (·.name)).contains p.name)
+
+def step (ps : List (Param V)) : Op V → List (Param V) × Except Err Unit
+  | .add a front => match a.create with
+    | .error e => (ps, .error e)
+    | .ok p =>
+      if (ps.map (·.name)).contains p.name then (ps, .error .keyError)
+      else (if front then p :: ps else ps ++ [p], .ok ())
+  | .fix req => editAll (PSet.fixF req) ps
+  | .float req => editAll (PSet.floatF req) ps
+  | .setv n v => match ps.find? (fun p => p.name = n) with
+    | none => (ps, .error .keyError)
+    | some p => match p.setValue v with
+      | .error e => (ps, .error e)
+      | .ok _ => (ps.map (fun q => if q.name = n then { q with value := v } else q), .ok ())
+  | .union other left => match createAll other with
+    | .error e => (ps, .error e)
+    | .ok os =>
+      if (os.map (·.name)).Nodup then
+        (if left then unionList ps os else unionList os ps, .ok ())
+      else (ps, .error .keyError)
+  | .copy => (ps, .ok ())
+  | .map _ _ _ => (ps, .error .typeError)
+
+def run (ps : List (Param V)) : List (Op V) → List (Param V)
+  | [] => ps
+  | op :: ops => run (step ps op).1 ops
+
+end Spec
 
 end Params
